@@ -120,3 +120,50 @@ def connected_graphs(n):
         adj = adjacency(edges)
         if len(adj) == n and len(bfs_dist(adj, 0)) == n:
             yield edges
+
+
+# ---- model of the KNOWN defective update (used only to tell the known finding from any other defect) ------------
+class StaleDfsModel:
+    """Plain-dict replica of the routing update as the pinned library performs it (recorded in
+    known_findings.json, C20/non-shortest-route-cyclic-graph): on `a + b` the tables are rebuilt by a
+    depth-first walk that starts at `a`, each node taking `1 + neighbour's current table`, neighbours in
+    link-insertion order, with a shared "already updated" set.  On cyclic graphs nodes visited early read
+    stale tables of nodes visited later.  The model predicts, for a given insertion history, the route
+    LENGTH the pinned algorithm ends with; a real route that is non-shortest but has exactly the predicted
+    length is the known finding, anything else is a new defect."""
+
+    def __init__(self):
+        self.neigh = {}  # name -> list of names (insertion order)
+        self.routes = {}  # name -> {target: (direction, steps)}
+
+    def add(self, a, b):
+        for x in (a, b):
+            self.neigh.setdefault(x, [])
+            self.routes.setdefault(x, {})
+        if b not in self.neigh[a]:
+            self.neigh[a].append(b)
+        if a not in self.neigh[b]:
+            self.neigh[b].append(a)
+        self._update(a, set())
+
+    def _update(self, me, done):
+        new = {}
+        for nb in self.neigh[me]:
+            new[nb] = (nb, 1)
+            for target, (_, steps) in self.routes[nb].items():
+                if target == me or target in self.neigh[me]:
+                    continue
+                if target in new and new[target][1] <= steps:
+                    continue
+                new[target] = (nb, steps + 1)
+        self.routes[me] = new
+        done.add(me)
+        for nb in self.neigh[me]:
+            if nb not in done:
+                self._update(nb, done)
+
+    def length(self, src, dst):
+        if src == dst:
+            return 0
+        r = self.routes.get(src, {}).get(dst)
+        return None if r is None else r[1]
